@@ -247,6 +247,61 @@ func verifC01Distinct(N int) {
 	vsymReach("C01_distinct")
 }
 
+// C01-O5b: distinct on TWO labels, one name a prefix of the other ("a",
+// "ab"), values of 0..maxLen symbolic bytes: the labels are independent
+// dimensions. Reference = the documented loop: for each label in order, a
+// record lacking it is kept at once, a record whose (label, value) was seen
+// is dropped, otherwise the pair is remembered.
+func verifC01Distinct2(N int, maxLen int) {
+	names := []logql.Label{"a", "ab"}
+	proc, err := buildDistinctFilter(&logql.DistinctFilter{Labels: names})
+	vsymAssert(err == nil, "distinct builds")
+	type seenRec struct {
+		valid bool
+		val   string
+	}
+	seen := [2][]seenRec{}
+	for j := 0; j < N; j++ {
+		set := newLabelSet()
+		var vals [2]string
+		var has [2]bool
+		for k := range names {
+			vals[k] = vsymString("v", vsymChoice("vlen", maxLen+1))
+			has[k] = vsymBool("has")
+			if has[k] {
+				set.Set(names[k], pcommon.NewValueStr(vals[k]))
+			}
+		}
+		line := vsymString("line", 1)
+		out, keep := proc.Process(1, line, set)
+		want := false
+		for k := range names {
+			if !has[k] {
+				want = true
+				break
+			}
+			dup := false
+			for _, r := range seen[k] {
+				if r.valid && r.val == vals[k] {
+					dup = true
+				}
+			}
+			if dup {
+				want = false
+				break
+			}
+			seen[k] = append(seen[k], seenRec{true, vals[k]})
+			want = true
+		}
+		vsymAssert(keep == want, "distinct over two labels: a record is dropped iff, going through the labels in order, one of its values was seen before under THAT label")
+		vsymAssert(!keep || out == line, "distinct does not change the line")
+	}
+	vsymReach("C01_distinct2")
+}
+
+func VerifHarness_C01_Distinct2_2() { verifC01Distinct2(2, 2) }
+func VerifHarness_C01_Distinct2_3() { verifC01Distinct2(3, 2) }
+
 func VerifHarness_C01_Distinct_3() { verifC01Distinct(3) }
 func VerifHarness_C01_Distinct_4() { verifC01Distinct(4) }
 
